@@ -115,8 +115,9 @@ fn render(e: &Value) -> String {
             render(&a[2]),
             2000 + a[1].as_i64().unwrap()
         ),
+        // the handler must be applied to the error, not to whatever else lies on the stack
         "handle" => format!(
-            "(with-handler (lambda (e) (begin (trace! {}) {})) {})",
+            "(with-handler (lambda (e) (begin (trace! (if (error-object? e) {} -77)) {})) {})",
             3000 + a[1].as_i64().unwrap(),
             render(&a[2]),
             render(&a[3])
@@ -393,6 +394,34 @@ impl Scenario for C08 {
                     }
                 }
                 (a, b) => report::violation(&format!("C08/{}/reenter/failed", tier), format!("{} gave {:?} / {:?}", prog, a, b)),
+            }
+            nontrivial = true;
+        }
+        // a continuation whose call/cc receiver stored it and then raised: the error is
+        // handled further out, and the stored continuation is re-entered afterwards
+        // (twice), from outside the handler's extent but inside the same top-level form
+        let raise_expr = match raise { 0 => "(error \"boom\")", 1 => "(car 5)", 2 => "(host-fail)", _ => "(vector-ref (vector 1) 9)" };
+        for (shape, class) in [("call-with-exception-handler", "stored-continuation-reentered-after-error")] {
+            vmh::set_context(&format!("{}/{}", tier, class));
+            let protected = format!("(+ 1 (call/cc (lambda (c) (set! sk c) {})))", raise_expr);
+            let handled = if shape == "with-handler" {
+                format!("(with-handler (lambda (e) 'handled) {})", protected)
+            } else {
+                format!("(call-with-exception-handler (lambda (e) 'handled) (lambda () {}))", protected)
+            };
+            let prog = format!(
+                "(define sk #f)\n(define sn 0)\n(define st '())\n(define (smain) (let ((r (dynamic-wind (lambda () (trace! 41)) (lambda () {}) (lambda () (trace! 42))))) (set! st (cons r st)) (set! sn (+ sn 1)) (if (< sn 3) (sk (* sn 10)) (reverse st))))\n(smain)",
+                handled
+            );
+            let _ = vmh::eval(&mut engine, "(show)");
+            let r = vmh::eval(&mut engine, &prog).map(|v| v.last().cloned().unwrap_or_default());
+            let t = vmh::eval(&mut engine, "(show)").map(|v| v.last().cloned().unwrap_or_default());
+            match (r, t) {
+                (Ok(v), Ok(tr)) if v == "(handled 11 21)" && tr == "(41 42 41 42 41 42)" => {}
+                (a, b) => report::violation(
+                    &format!("C08/{}/{}/wrong-result", tier, class),
+                    format!("{} gave {:?} with trace {:?}; expected (handled 11 21) and (41 42 41 42 41 42)", prog, a, b),
+                ),
             }
             nontrivial = true;
         }
